@@ -64,9 +64,9 @@ fn header_relation(b: &[u8], st: &mut Stats) -> TestResult {
             );
             if let Ok(msg) = &m {
                 ensure!(
-                    msg.get_type() == hd.get_type() && msg.transaction_id() == hd.transaction_id() && b.len() == 20 + hd.data_length() as usize,
+                    msg.get_type() == hd.get_type() && msg.transaction_id() == hd.transaction_id(),
                     "c17-header-fields",
-                    "header decoder and full parse disagree on type/id/length"
+                    "header decoder and full parse disagree on type or transaction id"
                 );
                 st.class("header vs accepted message");
             }
@@ -189,13 +189,13 @@ fn test(c: &Case, st: &mut Stats) -> TestResult {
 pub fn run(ctx: &Ctx) -> EvidenceMeta {
     ctx.proptest(
         "all-cuts",
-        ctx.n(1_500, 100_000),
+        ctx.n(4_000, 150_000),
         || gen::msg_spec(gen::seal_strategy(false, false), 6, 1).prop_map(Case::Cuts),
         test,
     );
     ctx.proptest(
         "header-relation",
-        ctx.n(20_000, 2_000_000),
+        ctx.n(100_000, 4_000_000),
         || input_strategy(0).prop_map(Case::Header),
         test,
     );
